@@ -260,3 +260,86 @@ func HarnessC14Serve() {
 	}
 	vAssert(vThreadsLive() <= 0, "c14:no-goroutine-left-serving-the-connection")
 }
+
+// ---- C03: the authentication callback the ServerBuilder composes ---------------------------------
+
+// HarnessC03BuildAuth: with the authenticators the builder was given (each present or absent), which
+// presented credentials can ever yield a known role?
+func HarnessC03BuildAuth() {
+	calls := 0
+	var plain PlainAuthenticator
+	var key KeyAuthenticator
+	var ext ExternalAuthenticator
+	role := DomainRole(nondetOneOf("cb.role", "member|authority|rootAuthority|unknown|"))
+	cbErr := nondetBool("cb.fails")
+	result := func() (*AuthenticationResult, error) {
+		calls++
+		if cbErr {
+			return nil, errVhStub
+		}
+		return &AuthenticationResult{Role: role}, nil
+	}
+	if nondetBool("plain.configured") {
+		plain = func(ctx context.Context, id Identity, pw string) (*AuthenticationResult, error) { return result() }
+	}
+	if nondetBool("key.configured") {
+		key = func(ctx context.Context, id Identity, k string) (*AuthenticationResult, error) { return result() }
+	}
+	if nondetBool("external.configured") {
+		ext = func(ctx context.Context, id Identity, tok, iss string) (*AuthenticationResult, error) {
+			return result()
+		}
+	}
+	auth := buildAuthenticate(plain, key, ext)
+	id := Identity{nondetString("id.name", 3), nondetString("id.domain", 3)}
+	if nondetBool("id.uuid-name") {
+		id.Name = "123e4567-e89b-42d3-a456-426614174000"
+	}
+	scheme := vhChoice("scheme", 6)
+	var presented Authentication
+	switch scheme {
+	case 0:
+		presented = &GuestAuthentication{}
+	case 1:
+		p := &PlainAuthentication{}
+		p.SetPasswordAsBase64("pw")
+		if nondetBool("cred.malformed") {
+			p.Password = "%%%"
+		}
+		presented = p
+	case 2:
+		k := &KeyAuthentication{}
+		k.SetKeyAsBase64("key")
+		if nondetBool("cred.malformed") {
+			k.Key = "%%%"
+		}
+		presented = k
+	case 3:
+		presented = &TransportAuthentication{}
+	case 4:
+		presented = &ExternalAuthentication{Token: nondetString("cred.tok", 2), Issuer: nondetString("cred.iss", 2)}
+	}
+	res, err := auth(context.Background(), id, presented)
+	vReach("c03:builder-authenticate-returned")
+	granted := err == nil && res != nil && res.Role != "" && res.Role != DomainRoleUnknown
+	if err == nil {
+		vAssert(res != nil, "c03:builder-result-or-error")
+	}
+	if !granted {
+		return
+	}
+	vReach("c03:builder-grants")
+	switch presented.(type) {
+	case *GuestAuthentication:
+		vAssert(id.Name == "123e4567-e89b-42d3-a456-426614174000", "c03:guest-granted-only-with-uuid-name")
+	case *PlainAuthentication:
+		vAssert(plain != nil && calls == 1 && !cbErr, "c03:plain-granted-only-by-the-configured-authenticator")
+	case *KeyAuthentication:
+		vAssert(key != nil && calls == 1 && !cbErr, "c03:key-granted-only-by-the-configured-authenticator")
+	case *ExternalAuthentication:
+		vAssert(ext != nil && calls == 1 && !cbErr, "c03:external-granted-only-by-the-configured-authenticator")
+	default:
+		vAssert(false, "c03:transport-or-missing-credentials-never-granted")
+	}
+	vAssert(role != "" && role != DomainRoleUnknown || calls == 0, "c03:granted-role-is-the-authenticators")
+}
